@@ -63,6 +63,8 @@ string cb_script;
 int run_ret_cb(mixed el, string script) { run(script); return 1; }
 int cmp_cb(mixed x, mixed y) { if (cb_script) { string t; t = cb_script; cb_script = 0; run(t); } return x > y; }
 mixed fp_target(string script) { run(script); return 7; }
+varargs mixed fp_target3(string script, int x, int y) { run(script); return x + y; }
+void spread_call(mixed *args) { fp_target3(args...); }
 void ed_exit() { rec("EDEXIT " + me()); }
 int ed_write_calls;
 int ed_write(string fname, int after) { rec("EDWRITE " + me() + " " + after); hook("edw"); return 1; }
@@ -485,6 +487,9 @@ void do_op(string op) {
     break;
   case "fpb":     // fpb <script>: function pointer with a bound argument
     evaluate((: fp_target, sub(implode(a[1..], " ")) :));
+    break;
+  case "spread":  // spread <script>: call with an argument array expanded by "..."
+    spread_call(({ sub(implode(a[1..], " ")), 1, 2 }));
     break;
   case "filter":  // filter <n> <script>: efun callback frames
     filter(allocate(to_int(a[1])), "run_ret_cb", this_object(), sub(implode(a[2..], " ")));
